@@ -27,6 +27,7 @@ func (c08) RequiredBuckets(tier string) []string {
 	out := []string{"segments:1", "segments:2", "segments:3", "segments:4", "segments:5", "strand:fwd", "strand:rev", "strand:mixed",
 		"mod:^", "mod:$", "mod:^$", "mod:^^", "mod:$$", "window:inside", "window:extends-5'", "window:extends-3'", "window:zero-length", "window:crosses-junction",
 		"modifier-roundtrip", "locator:modifier", "locator:point", "locator:range", "locator:complement", "locator:selector", "locator:selector@mod", "locator:@mod", "locator:no-match"}
+	out = append(out, "cmd:extract", "cmd:extract -v", "extract:two-locators", "stream:records-independent")
 	return out
 }
 func (c08) Findings() []fw.Finding { return nil }
@@ -425,4 +426,6 @@ func (m c08) Run(c *fw.Ctx) {
 		}
 		m.checkLocator(c, lr, tab, seqB)
 	}
+	// `gts extract <locator>` on the real binary.
+	c15Drive(c, []c15cmd{{"extract", nil}, {"extract", []string{"-v"}}, {"extract", nil}}, c.Pick(90, 3000))
 }
